@@ -98,11 +98,23 @@ PROPS = {
                                  "encoding/json and the yaml.v3 emitter: the model ends at the value tree handed to the encoders; the harness re-decodes the real output order-preservingly and compares"] + ["C13_bytes_partial: 'any byte sequence, bounded time, never panics' at the byte level is yaml.v3's scanner/parser plus the Go runtime; the harness drives documents with injected type errors and mutated renderings through Parse with recover; this sampling is support, not proof"],
         explanation="Totality by construction; step-count/order/derivation, unknown fallback verbatim + one warning each, enumerated hard-error causes, marshal succeeds (Lean). Correspondence of typed dump + warning kinds + hard-error class on grammar-generated documents with injected type errors.",
     ),
+    "C19": dict(
+        level="other", gen=True, race=True, corr_name="concurrency harness (no model driver)",
+        trusted_base=["Go race detector (dynamic; finds races only on schedules that occur)", "go/ast globals extractor (Gen/Globals)", "Lean kernel for the frame / no-global-writes theorems"],
+        explanation="PARTIAL. Proved in Lean: no function of any package writes a package-level variable (regenerated fact); in the slot-level ordered-map model every observer leaves the concrete state fixed and interleavings of observers give sequential answers. NOT expressible in the model and only exercised: goroutine interleavings and the Go memory model - rounds of 16 goroutines on distinct objects (results must equal the sequential run) and on shared read-only objects under the race detector; observers compared via VerifDump before/after.",
+        assumptions=["data-race freedom is supported by dynamic race detection on the schedules met, not proved"],
+    ),
 }
 
 NOT_APPLICABLE = {}
 
 MANIFEST_TEXT = {
+    "C19": dict(
+        text="PARTIAL, by design of the technique: a theorem about a sequential functional model cannot exhibit a data race. Proved (Lean 4): no function in any package assigns to a package-level variable (fact regenerated from source on every run); in the slot/tombstone/index model of the ordered map every observer is a function of the state returning no state, so any interleaving of observer calls leaves slots, tombstones and index unchanged and gives each call its sequential answer. Exercised, not proved: 16 goroutines parsing/interpolating/marshalling/signing/verifying distinct generated pipelines must reproduce the sequential digests; concurrent read-only use of one shared ordered map (with tombstones), signed pipeline and key set runs under the Go race detector and must give sequential answers; every observer must leave ordered.VerifDump unchanged on maps one deletion short of compaction.",
+        design_ref="DESIGN.md §6 C19",
+        note="Level 'other': the schedule-dependent part rests on the race detector and repeated rounds, which only see schedules that occur.",
+        technique="Lean 4 frame/no-global-writes theorems + race-detector stress harness (partial)",
+    ),
     "C13": dict(
         text="Kernel-checked proofs (Lean 4) about a total function mirroring the whole parse path after YAML decoding (Pipeline/Steps/stepFromMap and every UnmarshalOrdered, over struct descriptors and kind tables regenerated from source): a usable result has a non-nil step list holding exactly the parse of each entry of the input step sequence, in order and recursively inside groups; a step is unknown exactly with its input entry verbatim and one warning, every other step without; hard errors arise only from an entry that is neither string nor mapping or a non-string type; malformed typed steps fall back instead of aborting; marshalling the result succeeds. Tied by correspondence on grammar-generated documents (block/flow YAML, JSON) with type errors injected at every typed position: typed dump, warning kinds in order, hard-error class. The byte level (scanner, parser, runtime limits) is exercised only (partial).",
         design_ref="DESIGN.md §6 C13",
